@@ -379,6 +379,35 @@ def only_fills_empty(T, before, after):
         for what, u, v in (("head", x.head, y.head), ("tail", x.tail, y.tail)):
             if not (v == u or (u == "" and v == " ")):
                 return "%s of %r changed from %r to %r" % (what, p, u, v)
+    # ... and only WHERE a separator is needed: the slots the rule designates (Python mirror of
+    # AhtSlotProofs.head_needed_in / tail_needed_in, written on the classes of the INPUT)
+    parent = {}
+    for p, x in a:
+        for i, _c in enumerate(x.children):
+            parent[p + (i,)] = (x, i, len(x.children))
+    for (p, x), (_, y) in zip(a, b):
+        if p not in parent:
+            need_h = need_t = False               # the root gets nothing
+        else:
+            par, i, n = parent[p]
+            k = type(par)
+            if k in (T.AndOperation, T.OrOperation, T.BoolOperation):
+                need_h, need_t = (i > 0 or n == 1), (i < n - 1 or n == 1)
+            elif k is T.UnknownOperation:
+                need_h, need_t = False, i < n - 1
+            elif k is T.Not:
+                need_h, need_t = True, False
+            elif k is T.Range:
+                need_h, need_t = i == 1, i == 0
+            else:
+                need_h = need_t = False
+        for what, u, v, need in (("head", x.head, y.head, need_h), ("tail", x.tail, y.tail, need_t)):
+            if u == "" and v != "" and not need:
+                return "a blank was put in the empty %s of %r (under %s) where no separator is needed" % (
+                    what, p, type(parent[p][0]).__name__ if p in parent else "nothing: it is the root")
+            if u == "" and v == "" and need:
+                return "the empty %s of %r (under %s) needs a separator and got none" % (
+                    what, p, type(parent[p][0]).__name__)
     return None
 
 
